@@ -230,12 +230,23 @@ func H_C08_graph() {
 	}
 }
 
+type c08Obj struct {
+	K string `config:"k"`
+}
+
 // H_C08_objects: references to ancestors / descendants / sibling objects.
 func H_C08_objects() {
 	opts := []ucfg.Option{ucfg.VarExp, ucfg.PathSep(".")}
 	var in map[string]interface{}
 	cyclic := false
-	switch verif.Choice("shape", 6) {
+	shape := verif.Choice("shape", 9)
+	switch shape {
+	case 6: // a list reached along two paths
+		in = map[string]interface{}{"l": []interface{}{1, 2}, "x": "${l}", "y": "${l}"}
+	case 7: // chain of references to an object
+		in = map[string]interface{}{"o": map[string]interface{}{"k": "v"}, "x": "${o}", "y": "${x}"}
+	case 8: // two elements of one list refer to the same object
+		in = map[string]interface{}{"o": map[string]interface{}{"k": "v"}, "l": []interface{}{"${o}", "${o}"}}
 	case 0: // reference to the ancestor that contains the setting
 		in = map[string]interface{}{"a": map[string]interface{}{"b": "${a}"}}
 		cyclic = true
@@ -254,7 +265,61 @@ func H_C08_objects() {
 	}
 	c, err := ucfg.NewFrom(in, opts...)
 	verif.Assume(err == nil)
-	switch verif.Choice("entry", 3) {
+	switch verif.Choice("entry", 4) {
+	case 3:
+		// typed targets: struct fields, typed slices and maps
+		if cyclic {
+			return
+		}
+		var err error
+		ok := true
+		switch shape {
+		case 1, 7:
+			var t struct {
+				O c08Obj            `config:"o"`
+				X c08Obj            `config:"x"`
+				Y map[string]string `config:"y"`
+			}
+			err = c.Unpack(&t, opts...)
+			ok = t.O.K == "v" && t.X.K == "v" && t.Y["k"] == "v"
+		case 2:
+			var t struct {
+				A struct {
+					B struct {
+						C string `config:"c"`
+					} `config:"b"`
+				} `config:"a"`
+				R struct {
+					C string `config:"c"`
+				} `config:"r"`
+			}
+			err = c.Unpack(&t, opts...)
+			ok = t.A.B.C == "leaf" && t.R.C == "leaf"
+		case 4:
+			var t struct {
+				P string `config:"p"`
+				Q string `config:"q"`
+				R string `config:"r"`
+			}
+			err = c.Unpack(&t, opts...)
+			ok = t.P == "x" && t.Q == "x" && t.R == "x-x"
+		case 6:
+			var t struct {
+				L []int   `config:"l"`
+				X []int   `config:"x"`
+				Y [2]uint `config:"y"`
+			}
+			err = c.Unpack(&t, opts...)
+			ok = len(t.L) == 2 && len(t.X) == 2 && t.X[1] == 2 && t.Y[0] == 1
+		case 8:
+			var t struct {
+				O c08Obj   `config:"o"`
+				L []c08Obj `config:"l"`
+			}
+			err = c.Unpack(&t, opts...)
+			ok = len(t.L) == 2 && t.L[0].K == "v" && t.L[1].K == "v"
+		}
+		verif.Assert(err == nil && ok, "C08/objects: typed Unpack of an acyclic graph succeeds with the referenced values/shape="+itoa(shape))
 	case 0:
 		var m map[string]interface{}
 		err := c.Unpack(&m, opts...)
